@@ -31,6 +31,10 @@ def cases(seed, tier):
     rng = random.Random(seed * 1000003 + 11)
     for i in range(n):
         pat = rng.choice(["wl/*", "wl/a*", "wl/a?", "wl/svc*", "wl/*/x", "wl/a", "*/a1", "wl/[ab]*"])
+        if i % 9 == 4:
+            # alternatives: overlapping ones still mean one instance and one evaluation per cgroup, and an alternative whose
+            # directory does not exist takes nothing away from the others
+            pat = rng.choice(["wl/{a,a*}", "wl/{a1,b1,a1}", "{wl,nowhere}/a*", "{nowhere,wl}/{svc*,*1}"])
         use_x = rng.random() < 0.4
         rs = c02.gen_ruleset(rng, "rc", delays=("0", "1", "2", None), act_delay=rng.random() < 0.5)
         rs["cgroup"] = pat
